@@ -407,5 +407,65 @@ theorem run_invalidate_excludes (ops : List Op) (h : Hash) (c : Option Hash) (hd
   obtain ⟨s1, ok⟩ := r
   cases ok <;> exact this
 
+theorem processHeader_lookup_mono (s : State) (b : BlockAbs) (h : Hash) (n : Node)
+    (hl : lookup s.idx h = some n) : lookup (processHeader s b).1.idx h = some n := by
+  unfold processHeader
+  split
+  · exact hl
+  · split
+    · exact hl
+    · split
+      · split <;> exact hl
+      · rename_i hnone
+        split
+        · exact hl
+        · exact lookup_cons_of_some hnone hl
+
+/-- first-seen rule over any number of further deliveries -/
+theorem runFrom_adv {U : List BlockAbs} (hwf : WF U) :
+    ∀ (ops : List Op) (D : List BlockAbs) (s : State), deliveryOnly ops → (∀ x ∈ mentioned ops, x ∈ U) →
+    (∀ x ∈ D, x ∈ U) → Inv U D [] [] s → Adv s (runFrom s ops) := by
+  intro ops
+  induction ops with
+  | nil => intro D s _ _ _ _; exact adv_refl s
+  | cons o r ih =>
+    intro D s hdo hm hDU hi
+    cases o with
+    | block b =>
+      have hbU : b ∈ U := hm b (by simp [mentioned])
+      obtain ⟨h1, h2⟩ := processBlock_spec hwf hDU hbU hi
+      have := ih (b :: D) (step s (.block b)).1 hdo
+        (fun x hx => hm x (by simp [mentioned, hx]))
+        (by intro x hx; simp only [List.mem_cons] at hx; rcases hx with hx | hx
+            · subst hx; exact hbU
+            · exact hDU x hx)
+        h1
+      exact adv_trans h2 this
+    | header b =>
+      have hbU : b ∈ U := hm b (by simp [mentioned])
+      have h1 := processHeader_spec hwf hbU hi
+      have h2 : Adv s (step s (.header b)).1 :=
+        ⟨Or.inl (processHeader_best s b), fun h n hl => processHeader_lookup_mono s b h n hl⟩
+      have := ih D (step s (.header b)).1 hdo (fun x hx => hm x (by simp [mentioned, hx])) hDU h1
+      exact adv_trans h2 this
+    | invalidate h c => exact absurd hdo (by simp [deliveryOnly])
+    | reconsider h c => exact absurd hdo (by simp [deliveryOnly])
+
+theorem run_first_seen_multi (ops more : List Op) (hdo : deliveryOnly (ops ++ more))
+    (hwf : WF (mentioned (ops ++ more))) :
+    (run (ops ++ more)).best = (run ops).best ∨
+      (run ops).wsum (run ops).tip < (run (ops ++ more)).wsum (run (ops ++ more)).tip := by
+  obtain ⟨hd1, hd2⟩ := deliveryOnly_append hdo
+  have hm1 : ∀ x ∈ mentioned ops, x ∈ mentioned (ops ++ more) := by
+    intro x hx; rw [mentioned_append]; exact List.mem_append_left _ hx
+  have hm2 : ∀ x ∈ mentioned more, x ∈ mentioned (ops ++ more) := by
+    intro x hx; rw [mentioned_append]; exact List.mem_append_right _ hx
+  obtain ⟨D', h1, hi⟩ := run_inv_U hwf ops hd1 hm1
+  have hDU : ∀ x ∈ D', x ∈ mentioned (ops ++ more) :=
+    fun x hx => hm1 x (delivered_sub_mentioned ops x ((h1 x).mp hx))
+  have hr : run (ops ++ more) = runFrom (run ops) more := by unfold run; rw [runFrom_append]
+  rw [hr]
+  exact (runFrom_adv hwf more D' (run ops) hd2 hm2 hDU hi).1
+
 end Lemmas
 end BV.C02
